@@ -2,8 +2,10 @@ use crate::engine::Tier;
 use serde_json::Value;
 
 pub mod c01;
+pub mod c02;
 pub mod c03;
 pub mod c04;
+pub mod c06;
 pub mod c07;
 pub mod c08;
 pub mod c09;
@@ -31,8 +33,10 @@ pub fn run(id: &str, tier: Tier) -> i32 {
             if r.failures.is_empty() { 0 } else { 2 }
         }
         "C01" => { bind_or_die(); c01::run(tier) }
+        "C02" => { bind_or_die(); c02::run(tier) }
         "C03" => { bind_or_die(); c03::run(tier) }
         "C04" => { bind_or_die(); c04::run(tier) }
+        "C06" => { bind_or_die(); c06::run(tier) }
         "C07" => { bind_or_die(); c07::run(tier) }
         "C08" => c08::run(tier),
         "C09" => { bind_or_die(); c09::run(tier) }
@@ -50,8 +54,10 @@ pub fn replay(id: &str, v: &Value) -> i32 {
     let case = &v["case"];
     let f: fn(&Value) -> Option<(String, bool)> = match id {
         "C01" => c01::replay,
+        "C02" => c02::replay,
         "C03" => c03::replay,
         "C04" => c04::replay,
+        "C06" => c06::replay,
         "C07" => c07::replay,
         "C08" => c08::replay,
         "C09" => c09::replay,
